@@ -234,6 +234,10 @@ class Lit:
             if isinstance(n.func, ast.Name) and n.func.id == 'namedtuple' and n.func.id not in self.env and len(n.args) == 2 and not n.keywords:
                 import collections
                 return collections.namedtuple(*[self.ev(a) for a in n.args])      # standard-library primitive on literal arguments
+            if isinstance(n.func, ast.Name) and n.func.id == 'defaultdict' and n.func.id not in self.env and n.args and not n.keywords \
+               and isinstance(n.args[0], ast.Name) and n.args[0].id in ('list', 'int', 'dict', 'set', 'str') and n.args[0].id not in self.env:
+                import collections
+                return collections.defaultdict(self.PURE.get(n.args[0].id, str), *[self.ev(a) for a in n.args[1:]])      # library primitive, builtin factory
             if isinstance(n.func, ast.Name) and n.func.id == 'eval' and len(n.args) == 1:
                 src = self.ev(n.args[0])
                 if isinstance(src, str):
